@@ -16,6 +16,7 @@ package main
 //	S err=<..> q=<send queue slots: id or - > fl=<in flight 0|1> tr=<events>        (S, G, X)
 
 import (
+	"bytes"
 	"errors"
 	"fmt"
 	"net"
@@ -42,6 +43,7 @@ type gateConn struct {
 	writes   int
 	failAt   int
 	closed   bool
+	out      [][]byte // copy of every write, taken when the write arrives
 }
 
 func (c *gateConn) Read(b []byte) (int, error) { return 0, errors.New("no reads") }
@@ -55,6 +57,7 @@ func (c *gateConn) Write(b []byte) (int, error) {
 	}
 	c.mu.Lock()
 	c.writes++
+	c.out = append(c.out, append([]byte(nil), b...))
 	n := c.writes
 	gated := c.gated
 	if gated {
@@ -88,6 +91,49 @@ func (c *gateConn) SetWriteDeadline(t time.Time) error { return nil }
 
 func (c *gateConn) inFlight() []byte { c.mu.Lock(); defer c.mu.Unlock(); return c.pending }
 func (c *gateConn) arrived() int     { c.mu.Lock(); defer c.mu.Unlock(); return c.arrivals }
+
+// wsDecode reads one frame from b: opcode, unmasked payload, total length (0 = incomplete).
+func wsDecode(b []byte) (opcode int, payload []byte, total int) {
+	if len(b) < 2 {
+		return 0, nil, 0
+	}
+	opcode = int(b[0] & 0x0f)
+	masked := b[1]&0x80 != 0
+	n := int(b[1] & 0x7f)
+	h := 2
+	switch n {
+	case 126:
+		if len(b) < 4 {
+			return 0, nil, 0
+		}
+		n = int(b[2])<<8 | int(b[3])
+		h = 4
+	case 127:
+		if len(b) < 10 {
+			return 0, nil, 0
+		}
+		n = int(b[6])<<24 | int(b[7])<<16 | int(b[8])<<8 | int(b[9])
+		h = 10
+	}
+	var key []byte
+	if masked {
+		if len(b) < h+4 {
+			return 0, nil, 0
+		}
+		key = b[h : h+4]
+		h += 4
+	}
+	if len(b) < h+n {
+		return 0, nil, 0
+	}
+	payload = append([]byte(nil), b[h:h+n]...)
+	for i := range payload {
+		if key != nil {
+			payload[i] ^= key[i%4]
+		}
+	}
+	return opcode, payload, h + n
+}
 
 func execWS(e *lp.Exec, cline string, lines []string, tr *track.Tracker, lg *nullLogger) {
 	f := strings.Fields(cline)
@@ -187,6 +233,49 @@ func execWS(e *lp.Exec, cline string, lines []string, tr *track.Tracker, lg *nul
 		time.Sleep(100 * time.Microsecond)
 		active = false
 	}
+	// independent cross-check of the payload hand-over: the default ping handler answers every ping with a pong
+	// carrying the ping's OWN payload. The harness decodes the inbound stream itself (up to the invalid frame)
+	// and every pong the implementation writes must carry the payload of a ping not answered yet, in order.
+	badAt, _ := strconv.Atoi(field(f, "bad"))
+	var inb []byte
+	inOff, nextPing, outSeen := 0, 0, 0
+	var pings [][]byte
+	checkPongs := func() {
+		for badAt < 0 || inOff < badAt {
+			op, pl, total := wsDecode(inb[inOff:])
+			if total == 0 {
+				break
+			}
+			if op == 9 {
+				pings = append(pings, pl)
+			}
+			inOff += total
+		}
+		gc.mu.Lock()
+		outs := gc.out[outSeen:]
+		outSeen = len(gc.out)
+		gc.mu.Unlock()
+		for _, w := range outs {
+			op, pl, total := wsDecode(w)
+			if total == 0 || op != 10 {
+				continue
+			}
+			j := nextPing
+			for j < len(pings) && !bytes.Equal(pings[j], pl) {
+				j++
+			}
+			if j == len(pings) {
+				want := "none left"
+				if nextPing < len(pings) {
+					want = fmt.Sprintf("%d bytes %s", len(pings[nextPing]), lp.Hex(head(pings[nextPing], 16)))
+				}
+				e.Oracle("c11-stale-payload", "pong with %d payload bytes %s answers no pending ping (next pending ping: %s): the handler was given a buffer that is not this frame's | ws case",
+					len(pl), lp.Hex(head(pl, 16)), want)
+				continue
+			}
+			nextPing = j + 1
+		}
+	}
 	var key strings.Builder
 	fmt.Fprintf(&key, "ws/%s|", strings.Join(f[2:], "/"))
 	nontrivial := false
@@ -235,6 +324,7 @@ func execWS(e *lp.Exec, cline string, lines []string, tr *track.Tracker, lg *nul
 			delivered = nil
 			a0 := gc.arrived()
 			n0, _ := slots()
+			inb = append(inb, lp.Unhex(ff[1])...)
 			err := ws.Parse(lp.Unhex(ff[1]))
 			res := "ok"
 			if err != nil {
@@ -309,6 +399,7 @@ func execWS(e *lp.Exec, cline string, lines []string, tr *track.Tracker, lg *nul
 	for i := 0; i < 64 && gc.inFlight() != nil; i++ {
 		openGate(nil)
 	}
+	checkPongs()
 	ws.CloseAndClean(errors.New("end of case"))
 	tr.Audit()
 	for _, v := range tr.Drain() {
@@ -319,6 +410,13 @@ func execWS(e *lp.Exec, cline string, lines []string, tr *track.Tracker, lg *nul
 }
 
 // ---------------------------------------------------------------- generator
+
+func head(b []byte, n int) []byte {
+	if len(b) > n {
+		return b[:n]
+	}
+	return b
+}
 
 func wsFrame(g *lp.Gen, client bool, opcode int, fin bool, payload []byte) []byte {
 	b0 := byte(opcode)
@@ -373,8 +471,13 @@ func genWS(g *lp.Gen) {
 	for i := 0; i < nm; i++ {
 		size := g.PickInt(0, 1, 5, 125, 126, 200, 1000, 70000)
 		switch g.Intn(5) {
-		case 0: // control frame
-			stream = append(stream, wsFrame(g, client, g.PickInt(9, 9, 10), true, []byte(strings.Repeat("p", g.PickInt(0, 0, 1, 20, 125))))...)
+		case 0: // control frame, or a burst of them back to back (several in one Parse call); payloads all differ
+			stream = append(stream, wsFrame(g, client, g.PickInt(9, 9, 10), true, lp.Pattern(g.PickInt(0, 0, 1, 20, 125), 40+i))...)
+			if g.Chance(1, 2) {
+				for j := 0; j < 1+g.Intn(2); j++ {
+					stream = append(stream, wsFrame(g, client, g.PickInt(9, 9, 10), true, lp.Pattern(g.PickInt(0, 0, 0, 3, 125), 50+7*i+j))...)
+				}
+			}
 		case 1: // fragmented message, control frames in between
 			parts := 2 + g.Intn(2)
 			for j := 0; j < parts; j++ {
